@@ -180,6 +180,7 @@ func buildWorld() {
 		g.Recipient = &Group{Members: rs}
 		world[name] = g
 	}
+	addSpecialParties(world)
 	// U4: a stanza whose argument line is longer than any default I/O buffer
 	long := make([]byte, 5000)
 	for i := range long {
@@ -189,7 +190,7 @@ func buildWorld() {
 		{Type: "long-args", Args: []string{string(long), "tail"}, Body: make([]byte, 100)}}}}
 }
 
-// P returns the named party: X1..X4, E1..E3, R1..R6, A1..A3, G1, G2, S1, S2, U0..U4, and
+// P returns the named party: X1..X4, E1..E3, EZ1, EZ2, PE1, PR1, R1..R6, A1..A3, G1, G2, S1, S2, U0..U4, and
 // XN<anything>: further native parties made on demand (for very long lists).
 func P(name string) *Party {
 	worldOnce.Do(buildWorld)
